@@ -9,6 +9,28 @@ IMPORTS = ("From TkModel Require Import Base Dec Acct Txn Balance Accept Equity.
 PRICE_TOML = '[price]\ndb-path = "prices.db"\nlookup-type = "last-price"'
 
 
+# equity account names: invalid ones must be rejected by Settings when the equity export is a target (F20)
+INVALID_EQA = ["Equity Opening", "", "a:", ":a", "1abc", "a b:c", "a\tb", "Equity\t:x", "a: b", "a:\tb", "a :b", " a", "a ",
+               "-a", "_a", "·a", "a:-b", "a:_b", "a:·b", "a::b", ":", "a:b c", "a\u00a0b", "a:\u2003b"]
+VALID_ODD_EQA = ["é:x", "a-b:1", "A:2b", "a:1", "a:²", "²a", "a_b:c-d", "€uro:x·y"]
+WS = set([0x85, 0xa0, 0x1680, 0x2028, 0x2029, 0x202f, 0x205f, 0x3000, 32] + list(range(9, 14)) + list(range(0x2000, 0x200b)))
+
+
+def eq_account_ok(name):
+    """python mirror of Equity_spec.eq_account_ok (the Coq predicate is evaluated on every case as well)"""
+    for i, comp in enumerate(name.split(":")):
+        if comp == "" or any(ord(ch) in WS for ch in comp):
+            return False
+        c = comp[0]
+        if c in "-_·" or (i == 0 and c in "0123456789"):
+            return False
+    return True
+
+
+def toml_str(x):
+    return x.replace("\\", "\\\\").replace('"', '\\"').replace("\t", "\\t")
+
+
 def esc_re(s):
     out = ""
     for ch in s:
@@ -102,7 +124,11 @@ def gen_case(r, i):
     else:
         sel = [(True, "zzz:none")]; tags.append("sel-nothing")
     k = r.random()
-    if k < 0.55:
+    if k < 0.08:
+        eqa = r.choice(INVALID_EQA); tags.append("eqa-invalid-name")
+    elif k < 0.16:
+        eqa = r.choice(VALID_ODD_EQA); tags.append("eqa-valid-unusual-name")
+    elif k < 0.55:
         eqa = r.choice(["Equity:Opening", "Equity", "Equity:Opening:Balance"])
     elif k < 0.85:
         eqa = r.choice(accs); tags.append("eqa-in-journal")
@@ -137,7 +163,7 @@ def load_corpus():
 
 def request1(c):
     pats = None if c["sel"] is None else sel_patterns(c["sel"])
-    kw = dict(eqa=c["eqa"], exports='"equity"', audit="true" if c["audit"] else "false")
+    kw = dict(eqa=toml_str(c["eqa"]), exports='"equity"', audit="true" if c["audit"] else "false")
     ov = {}
     if pats is not None:
         if c["via_cli_accounts"]:
